@@ -16,7 +16,7 @@ structure HistOK (bins : List (K × K)) (lo hi : K) : Prop where
   within : Within lo hi bins
 
 theorem eqK_iff (a b : K) : eqK a b = true ↔ a = b := by
-  unfold eqK
+  unfold eqK Gen.DistogramExpr.eqK
   simp only [Bool.and_eq_true, decide_eq_true_eq]
   exact ⟨fun h => le_antisymm h.1 h.2, fun h => by rw [h]; exact ⟨le_refl _, le_refl _⟩⟩
 
@@ -31,8 +31,12 @@ theorem countAt_unfold (v0 f0 : K) (tail : List (K × K)) (vl fl lo hi x : K)
       else if x ≤ v0 then some ((x - lo) / (v0 - lo) * v0 / 2)
       else if vl ≤ x then some ((1 + (x - vl) / (hi - vl)) * fl / 2 + mass ((v0, f0) :: tail).dropLast)
       else interior ((v0, f0) :: tail) x := by
+  have e : ∀ a b : K, Gen.DistogramExpr.eqK a b = true ↔ a = b := eqK_iff
   unfold countAt
-  simp only [List.head?_cons, hl, eqK_iff, sumCounts_eq_mass]
+  simp only [List.head?_cons, hl, sumCounts_eq_mass, Gen.DistogramExpr.countOutside, Gen.DistogramExpr.countAtMin,
+    Gen.DistogramExpr.countAtMax, Gen.DistogramExpr.countLeftTest, Gen.DistogramExpr.countLeftRatio,
+    Gen.DistogramExpr.countLeftResult, Gen.DistogramExpr.countRightTest, Gen.DistogramExpr.countRightRatio,
+    Gen.DistogramExpr.countRightResult, e, gt_iff_lt, ge_iff_le, decide_eq_true_eq]
 
 theorem left_bounds {lo v0 w x : K} (h1 : lo < x) (h2 : x ≤ v0) (hf : 0 ≤ w) :
     0 ≤ (x - lo) / (v0 - lo) * w / 2 ∧ (x - lo) / (v0 - lo) * w / 2 ≤ w / 2 := by
@@ -150,7 +154,10 @@ theorem sumMids_eq : ∀ (b : K × K) (rest : List (K × K)) (bl : K × K), (b :
 theorem scanQ_cons_cons (acc : K) (vi fi vj fj : K) (rest : List (K × K)) (mb : K) :
     scanQ acc ((vi, fi) :: (vj, fj) :: rest) mb =
       if mb < acc + (fi + fj) / 2 then some (vi + (mb - acc) / ((fi + fj) / 2) * (vj - vi))
-      else scanQ (acc + (fi + fj) / 2) ((vj, fj) :: rest) mb := rfl
+      else scanQ (acc + (fi + fj) / 2) ((vj, fj) :: rest) mb := by
+  simp only [scanQ, Gen.DistogramExpr.quantMid, Gen.DistogramExpr.quantWalkTest, Gen.DistogramExpr.quantInteriorResult,
+    Gen.DistogramExpr.quantInteriorFraction]
+  by_cases c : mb < acc + (fi + fj) / 2 <;> simp [c]
 
 /-- The interior walk answers between the first centre and some later centre. -/
 theorem scanQ_range : ∀ (b0 : K × K) (tail : List (K × K)) (acc mb r : K), Inc (b0 :: tail) →
@@ -232,7 +239,10 @@ theorem quantileQ_unfold (v0 f0 : K) (tail : List (K × K)) (vl fl lo hi q : K)
         some (vl + (q - (mass ((v0, f0) :: tail) - fl / 2)) / (fl / 2) * (hi - vl))
       else scanQ 0 ((v0, f0) :: tail) (q - f0 / 2) := by
   unfold quantileQ
-  simp only [List.head?_cons, hl, sumCounts_eq_mass]
+  simp only [List.head?_cons, hl, sumCounts_eq_mass, Gen.DistogramExpr.quantLeftTest, Gen.DistogramExpr.quantLeftFraction,
+    Gen.DistogramExpr.quantLeftResult, Gen.DistogramExpr.quantRightTest, Gen.DistogramExpr.quantRightBase,
+    Gen.DistogramExpr.quantRightFraction, Gen.DistogramExpr.quantRightResult, Gen.DistogramExpr.quantMb, ge_iff_le,
+    decide_eq_true_eq]
 
 /-- Which branch of `quantile` answers for `0 ≤ q ≤ total`, with its band:
 `lo ≤ left ≤ v0 ≤ interior ≤ vl ≤ right ≤ hi`. -/
@@ -298,6 +308,6 @@ theorem quantile_eq (floor : K → K) (ok : HistOK bins lo hi) {value : K} (h0 :
     | nil => exact absurd hb ok.ne
     | cons _ _ => rfl
   rw [this, sumCounts_eq_mass]
-  simp [h0, h1]
+  simp [Gen.DistogramExpr.quantInRange, Gen.DistogramExpr.quantCountArg, h0, h1]
 
 end Distogram
